@@ -33,6 +33,7 @@ StartRun(c) ==
   /\ results' = [t \in Threads |-> <<>>]
   /\ panicked' = FALSE
   /\ gorder' = <<>>
+  /\ seenk' = [t \in Threads |-> {}] /\ reps' = [t \in Threads |-> 0]
   /\ sched' = <<>>
 
 TraceInit ==
@@ -45,6 +46,7 @@ TraceInit ==
   /\ results = [t \in Threads |-> <<>>]
   /\ panicked = FALSE
   /\ gorder = <<>>
+  /\ seenk = [t \in Threads |-> {}] /\ reps = [t \in Threads |-> 0]
   /\ sched = <<>>
   /\ l = 2
 
